@@ -864,7 +864,7 @@ func (o outcome) nontrivial() bool {
 var (
 	tNames   = []string{"t1", "t2", "t3", "t4", "t5"}
 	rNames   = []string{"r1", "r2", "r3", "r4"}
-	addrPool = [][]string{{"h1:1"}, {"h1:1", "h2:2"}, {"h2:2"}, {"h3:3", "h1:1"}}
+	addrPool = [][]string{{"h1:1"}, {"h1:1", "h2:2"}, {"h2:2"}, {"h3:3", "h1:1"}, {"h2:2", "h1:1"}, {"h1:1", "h2:2", "h3:3"}}
 	metaPool = []map[string]string{nil, nil, nil, {"k": "v"}, {"k": "w"}, {"k": "v", "l": "x"}}
 	pathPool = [][]string{{"a"}, {"b"}, {"a/b"}, {"c/d/e"}, {"a", "b"}, {"b", "a"}}
 )
@@ -997,7 +997,17 @@ func mutate(rng *rand.Rand, d *cfgD) string {
 		t := d.Tgt[n].clone()
 		switch rng.Intn(4) {
 		case 0:
-			t.Addrs = append([]string(nil), addrPool[rng.Intn(len(addrPool))]...)
+			if len(t.Addrs) >= 2 && rng.Intn(2) == 0 {
+				// The same next hops in another order: the order is a setting (the
+				// first address names the hop the session metadata is built from).
+				rev := make([]string, len(t.Addrs))
+				for i, a := range t.Addrs {
+					rev[len(rev)-1-i] = a
+				}
+				t.Addrs = rev
+			} else {
+				t.Addrs = append([]string(nil), addrPool[rng.Intn(len(addrPool))]...)
+			}
 		case 1:
 			t.Cred = randCred(rng)
 		case 2:
